@@ -77,6 +77,7 @@ func runCase(c Case) caseResult {
 			cr.Infra = "scenario " + c.Sc.Name + ": " + v.PanicMsg
 			continue
 		}
+		vm.StrictDeviations = c.Opt.StrictDev
 		r1 := vm.Replay(c.Sc, v.Choices)
 		r2 := vm.Replay(c.Sc, v.Choices)
 		m1, m2 := "", ""
